@@ -85,8 +85,9 @@ class FunctionNode(ConfigDict):
         finally:
             self.__dict__.pop('_dropped_paths', None)
 
-        if new_func and ret is other and type(self) is type(other):
-            # "other" has taken the place of this node, which has been given its target above. The node can stand at other places too
+        if ret is other and type(self) is type(other):
+            # "other" (another target, or the same one with arguments that replace the old ones) has taken the place of this node, which
+            # has been emptied for it above. The node can stand at other places too
             # (yaml alias: one node, evaluated once): it stays the node of all of them, with everything "other" brings
             for name, child in list(other.ayns.named_children()):
                 self.ayns.set_child(name, child)
